@@ -228,8 +228,12 @@ class FunctionTranslator:
 
     # -------------------------------------------------------------- errors
     def fail(self, node, msg):
-        raise TranslateError("%s:%d: %s.%s: %s  [%s]" % (
-            self.path, getattr(node, "lineno", self.fn.lineno), CLASS, self.fn.name, msg,
+        chain, t = "", self.parent
+        while t is not None:
+            chain += " (inlined into %s)" % t.fn.name
+            t = t.parent
+        raise TranslateError("%s:%d: %s.%s%s: %s  [%s]" % (
+            self.path, getattr(node, "lineno", self.fn.lineno), CLASS, self.fn.name, chain, msg,
             _comment(ast.unparse(node)).split("\n")[0][:100]))
 
     def undef(self, node, name):
@@ -283,17 +287,33 @@ class FunctionTranslator:
             return env.sym.get(e.id) or self.opaque()
         if isinstance(e, ast.Constant) and type(e.value) in (int, str):
             return repr(e.value)
+        if self.is_copy(e):
+            return self.sym(self.copied(e), env)
         if isinstance(e, ast.Subscript):
             return "%s[%s]" % (self.sym(e.value, env), self.sym(e.slice, env))
-        if self.is_copy(e):
-            return self.sym(e.args[0], env)
         return self.opaque()
 
     @staticmethod
-    def is_copy(e):
-        return (isinstance(e, ast.Call) and isinstance(e.func, ast.Attribute) and e.func.attr == "copy"
-                and isinstance(e.func.value, ast.Name) and e.func.value.id == "copy"
-                and len(e.args) == 1 and not e.keywords)
+    def copied(e):
+        """the list a shallow copy is taken of: copy.copy(x), list(x), x.copy(), x[:]  ->  x;  else None"""
+        if isinstance(e, ast.Call) and not e.keywords:
+            f = e.func
+            if isinstance(f, ast.Attribute) and f.attr == "copy" and isinstance(f.value, ast.Name) \
+                    and f.value.id == "copy" and len(e.args) == 1:
+                return e.args[0]
+            if isinstance(f, ast.Name) and f.id == "list" and len(e.args) == 1 and not isinstance(e.args[0], ast.Starred):
+                return e.args[0]
+            if isinstance(f, ast.Attribute) and f.attr == "copy" and not e.args \
+                    and not (isinstance(f.value, ast.Name) and f.value.id in ("copy", "self")):
+                return f.value
+        if isinstance(e, ast.Subscript) and isinstance(e.slice, ast.Slice) \
+                and e.slice.lower is None and e.slice.upper is None and e.slice.step is None:
+            return e.value
+        return None
+
+    @classmethod
+    def is_copy(cls, e):
+        return cls.copied(e) is not None
 
     @staticmethod
     def is_self_attr(e, attr=None):
@@ -480,8 +500,7 @@ class FunctionTranslator:
         if isinstance(e, ast.Compare):
             if len(e.ops) != 1 or len(e.comparators) != 1:
                 self.fail(e, "chained comparison")
-            a, ta = self.expr(e.left, env)
-            b, tb = self.expr(e.comparators[0], env)
+            (a, ta), (b, tb) = self.compare_operands(e.left, e.comparators[0], env)
             if ta != tb or ta not in (P, NAT):
                 self.fail(e, "comparison of %s with %s" % (ta, tb))
             a, b = _paren(a), _paren(b)
@@ -506,6 +525,30 @@ class FunctionTranslator:
         if isinstance(e, ast.ListComp):
             return self.listcomp(e, env)
         self.fail(e, "unsupported expression (%s)" % type(e).__name__)
+
+    def minus_one(self, e, env):
+        """x for an expression `x - 1` / `x + (-1)` whose x is NOT known to be > 0, else None"""
+        if isinstance(e, ast.BinOp) and isinstance(e.op, (ast.Add, ast.Sub)):
+            c = self.const_int(e.right, env)
+            if c is not None and self.const_int(e.left, env) is None \
+                    and c == (1 if isinstance(e.op, ast.Sub) else -1) and self.sym(e.left, env) not in env.nonzero:
+                return e.left
+        return None
+
+    def compare_operands(self, l, r, env):
+        """the operands of a comparison.  `x - 1 OP y` is translated as `x OP y + 1` (the same over the integers, and it
+        needs no `x > 0`):  len(l) - 1 == i,  i < len(l) - 1,  ..."""
+        xl, xr = self.minus_one(l, env), self.minus_one(r, env)
+        if xl is not None and xr is not None:
+            return self.expr(xl, env), self.expr(xr, env)
+        if xl is not None or xr is not None:
+            (a, ta), (b, tb) = self.expr(xl if xl is not None else l, env), self.expr(xr if xr is not None else r, env)
+            if (ta, tb) != (NAT, NAT):
+                self.fail(l, "comparison of %s with %s" % (ta, tb))
+            if xl is not None:
+                return (a, NAT), ("%s + 1" % _paren(b), NAT)
+            return ("%s + 1" % _paren(a), NAT), (b, NAT)
+        return self.expr(l, env), self.expr(r, env)
 
     def listcomp(self, e, env):
         """[elt for x in l]  ->  map (fun x => elt) l;   [elt for x in l if c]  ->  map (fun x => elt) (filter (fun x => c) l)
@@ -540,6 +583,8 @@ class FunctionTranslator:
     def subscript(self, e, env):
         if not isinstance(e.ctx, ast.Load):
             self.fail(e, "unsupported use of a subscript")
+        if self.is_copy(e):
+            return self.copy_of(e, env)
         # self.grammar[t]  ->  groups rs t   (the list of the variable's groups)
         if self.is_self_attr(e.value, "grammar"):
             t, ty = self.expr(e.slice, env)
@@ -617,10 +662,7 @@ class FunctionTranslator:
     def call(self, e, env):
         f = e.func
         if self.is_copy(e):
-            v, tv = self.expr(e.args[0], env)
-            if tv != PT:
-                self.fail(e, "copy.copy of a value of type %s" % tv)
-            return v, PT
+            return self.copy_of(e, env)
         if isinstance(f, ast.Name) and f.id == "len" and len(e.args) == 1 and not e.keywords:
             v, tv = self.expr(e.args[0], env)
             if tv not in (PT, ITEMS, ROW, VARS):
@@ -637,6 +679,16 @@ class FunctionTranslator:
             args = self.bind_args(e, spec, env)
             return "%s %s" % (self.call_spec(e, spec), " ".join(_paren(a) for a in args)), spec["ret"]
         self.fail(e, "unsupported call")
+
+    def copy_of(self, e, env):
+        """copy.copy(x) / list(x) / x.copy() / x[:] of a parse tree: the same Coq list (a new Python list, which is
+        what makes item assignment on it acceptable)"""
+        if isinstance(e, ast.Call) and isinstance(e.func, ast.Name) and (e.func.id in env.types or e.func.id in env.consts):
+            self.fail(e, "%r is a local variable here" % e.func.id)
+        v, tv = self.expr(self.copied(e), env)
+        if tv != PT:
+            self.fail(e, "a shallow copy of a value of type %s" % tv)
+        return v, PT
 
     def inline(self, e, env):
         """self.h(args) for another method h of the class: the body of h, translated at this call with the
@@ -927,6 +979,26 @@ class FunctionTranslator:
             if self.is_copy(v) or isinstance(v, ast.ListComp) or id(v) in self.fresh_calls:
                 env.fresh.add(t.id)          # a new list nothing else refers to
             return self.line(ind, "let %s := %s in" % (t.id, text), s)
+        if isinstance(t, ast.Tuple):
+            # a, b = node
+            if not (len(t.elts) == 2 and all(isinstance(x, ast.Name) for x in t.elts)) or t.elts[0].id == t.elts[1].id:
+                self.fail(s, "only `a, b = node` is supported as a tuple assignment")
+            names = [x.id for x in t.elts]
+            for m in ast.walk(s.value):
+                if isinstance(m, ast.Name) and m.id in names:
+                    self.fail(s, "a name assigned by the tuple assignment occurs on its right-hand side")
+            text, ty = self.expr(s.value, env)
+            if ty != NODE:
+                self.fail(s, "tuple assignment from a value of type %s" % ty)
+            base = self.sym(s.value, env)
+            out = ""
+            for n, (x, proj) in enumerate(zip(names, ("fst", "snd"))):
+                if x in env.partial:
+                    self.fail(s, "a dict under construction is rebound")
+                self.bind(s, x, NAT, env)
+                env.sym[x] = "%s[%d]" % (base, n)
+                out += self.line(ind, "let %s := %s %s in" % (x, proj, _paren(text)), s if n == 0 else None)
+            return out
         if isinstance(t, ast.Subscript) and isinstance(t.value, ast.Name):
             x = t.value.id
             if env.types.get(x) != PT or x not in env.fresh:
@@ -1105,34 +1177,46 @@ class FunctionTranslator:
                 env.fresh.discard(n)
         return out + self.block(rest, env, k, ind)
 
+    def node_target(self, s, t):
+        """loop target standing for a node: `item` -> (item, None);  `(a, b)` -> (a fresh name for the node, (a, b))"""
+        if isinstance(t, ast.Name):
+            return t.id, None
+        if isinstance(t, ast.Tuple) and len(t.elts) == 2 and all(isinstance(x, ast.Name) for x in t.elts):
+            a, b = t.elts[0].id, t.elts[1].id
+            return "%s_%s_node" % (a, b), (a, b)
+        self.fail(s, "unsupported loop target")
+
     def for_(self, s, rest, env, k, ind):
         if s.orelse:
             self.fail(s, "for ... else")
         it = s.iter
         inner = env.copy()
         names = [n for n in self.assigned(s.body) if n in env.types or n == "saved"]
-        binders = []
+        binders, unpack = [], None
         if isinstance(it, ast.Call) and isinstance(it.func, ast.Name) and it.func.id == "enumerate" \
                 and len(it.args) == 1 and not it.keywords:
             if not (isinstance(s.target, ast.Tuple) and len(s.target.elts) == 2
-                    and all(isinstance(x, ast.Name) for x in s.target.elts)):
-                self.fail(s, "enumerate needs the target `pos, item`")
+                    and isinstance(s.target.elts[0], ast.Name)):
+                self.fail(s, "enumerate needs the target `pos, item` or `pos, (a, b)`")
             lst = it.args[0]
             l, tl = self.expr(lst, env)
-            if tl != PT or not isinstance(lst, ast.Name):
-                self.fail(s, "enumerate of something that is not a parse-tree variable")
-            pos, x = s.target.elts[0].id, s.target.elts[1].id
+            if tl != PT:
+                self.fail(s, "enumerate of something that is not a parse tree")
+            pos = s.target.elts[0].id
+            x, unpack = self.node_target(s, s.target.elts[1])
             binders = [(pos, NAT), (x, NODE)]
             psym = self.opaque()
             inner.sym[pos] = psym
             inner.sym[x] = "%s[%s]" % (self.sym(lst, env), psym)
-            head = "for_enum %s (fun %s %s %%s =>" % (l, pos, x)
+            head = "for_enum %s (fun %s %s %%s =>" % (_paren(l), pos, x)
+            if not isinstance(lst, ast.Name):
+                lst = None         # not a local list: nothing in the subset can change it
         elif isinstance(it, ast.Call) and isinstance(it.func, ast.Name) and it.func.id == "range" \
-                and len(it.args) == 2 and not it.keywords:
+                and len(it.args) in (1, 2) and not it.keywords:
             if not isinstance(s.target, ast.Name):
                 self.fail(s, "range needs a single target")
-            a, ta = self.expr(it.args[0], env)
-            b, tb = self.expr(it.args[1], env)
+            a, ta = self.expr(it.args[0], env) if len(it.args) == 2 else ("0", NAT)
+            b, tb = self.expr(it.args[-1], env)
             if (ta, tb) != (NAT, NAT):
                 self.fail(s, "range of non-ints")
             for arg in it.args:
@@ -1144,21 +1228,24 @@ class FunctionTranslator:
             head = "for_range %s %s (fun %s %%s =>" % (_paren(a), _paren(b), s.target.id)
             lst = None
         elif isinstance(it, (ast.Name, ast.Attribute, ast.Subscript)):
-            if not isinstance(s.target, ast.Name):
-                self.fail(s, "unsupported loop target")
             l, tl = self.expr(it, env)
-            inner.sym[s.target.id] = self.opaque()
-            if tl == PT and isinstance(it, ast.Name):
-                lst = it
-                binders = [(s.target.id, NODE)]
-                head = "for_each %s (fun %s %%s =>" % (l, s.target.id)
+            if tl == PT:
+                lst = it if isinstance(it, ast.Name) else None
+                x, unpack = self.node_target(s, s.target)
+                inner.sym[x] = self.opaque()
+                binders = [(x, NODE)]
+                head = "for_each %s (fun %s %%s =>" % (_paren(l), x)
+            elif not isinstance(s.target, ast.Name):
+                self.fail(s, "unsupported loop target")
             elif tl == VARS:
+                inner.sym[s.target.id] = self.opaque()
                 lst = None         # nothing in the subset can change a list of this type
                 binders = [(s.target.id, NAT)]
                 head = "for_each %s (fun %s %%s =>" % (_paren(l), s.target.id)
             elif tl == BASES:
                 # the position in self.base is the ghost tag of the items built in the body
                 lst = None
+                inner.sym[s.target.id] = self.opaque()
                 tag = s.target.id + "_tag"
                 binders = [(tag, NAT), (s.target.id, BASE)]
                 inner.sym[tag] = self.opaque()
@@ -1170,13 +1257,19 @@ class FunctionTranslator:
             self.fail(s, "unsupported loop")
         if lst is not None and lst.id in names:
             self.fail(s, "the iterated list is assigned or mutated in the loop")
-        for n, ty in binders:
+        for n, ty in binders + [(n, NAT) for n in (unpack or ())]:
             if n in env.types or n in env.consts or n in env.partial:
                 self.fail(s, "the loop variable %r is already bound" % n)
             self.check_name(s, n)
             inner.types[n] = ty
-        if len({n for n, _ in binders}) != len(binders):
+        if len({n for n, _ in binders} | set(unpack or ())) != len(binders) + len(unpack or ()):
             self.fail(s, "loop variables collide")
+        pre = ""
+        if unpack:        # for ..., (a, b) in ...:  the node is named, its components are let-bound
+            x = binders[-1][0]
+            for n, proj, k_ in zip(unpack, ("fst", "snd"), (0, 1)):
+                inner.sym[n] = "%s[%d]" % (inner.sym[x], k_)
+                pre += self.line(ind + 2, "let %s := %s %s in" % (n, proj, x))
         for n in names:
             inner.sym[n] = self.opaque()
             env.sym[n] = self.opaque()
@@ -1185,7 +1278,7 @@ class FunctionTranslator:
         body_k = K(lambda _n: cont, lambda _n: cont,
                    lambda n, t, ty: "Return %s" % _paren(k.ret(n, t, ty)))
         out = self.line(ind, head % pat, s, header=True)
-        out += _close(self.block(list(s.body), inner, body_k, ind + 2), ")")
+        out += pre + _close(self.block(list(s.body), inner, body_k, ind + 2), ")")
         self.merge_partial(s, env, inner)
         # a list is still fresh after the loop only if the body did not store it
         for n in list(env.fresh):
